@@ -145,3 +145,25 @@ var _ uuid.UUID
 //@ assume
 //@ ensures [ctx] !isnil(ret)
 //@ modifies nothing
+
+// ---------------------------------------------------------------------------------------------
+// C20, the member side of the join handshake: the handler acknowledges (returns nil) only after the nodes manager was asked to
+// add exactly the announced id and address - never from what the member's own address book happens to say (the book is the
+// member's applied view, it may still list a node whose removal is already committed)
+//@ func iface:protobuf.NodesManager_AddNodeServer.Send
+//@ props C20
+//@ assume
+//@ modifies nothing
+//@ func (*services.nodesManagerServer).AddNode
+//@ props C20
+//@ safety UNCLAIMED
+//@ ghost joined int = 0
+//@ at call NodesManager).AddNode
+//@ requires [C20 join-for-the-announced-id-and-address] $arg1 == ite(req == nil, 0, req.Id) && (req != nil ==> $arg2 == req.Address) && joined == 0
+//@ set joined = ite(isnil($ret1), 1, 0)
+//@ end
+//@ requires [wf] this.nodesManager != nil
+//@ ensures [C20 acknowledged-join-went-through-the-nodes-manager] isnil(ret) ==> joined == 1
+//@ modifies *
+//@ loop 1
+//@ invariant [joined] joined == 1
